@@ -234,13 +234,13 @@ def run(ctx):
                 # the per-component encoding may sit in a closure mapped over the fixed-size array: once, applied N times
                 import re as _re
 
-                for cb_ in prog.closures_of(b_.name):
+                for cb_ in [x_ for x_ in prog.deep_bodies(b_.name) if x_.name != b_.name]:  # closure or local fn handed to map()
                     cc = [((t_.get("res") or (t_["f"].get("k") or {}).get("fn") or "")).split("::")[-1] for _bi, t_ in prog.body(cb_.name).calls()]
                     if cc.count("from_f32") == 1 and cc.count("to_bits") == 1:
                         for _bi, t_ in b_.calls():
                             gal = (t_["f"].get("k") or {}).get("ga", [])
                             cal = (t_.get("res") or (t_["f"].get("k") or {}).get("fn") or "")
-                            if cal.endswith("array::<impl [T; N]>::map") and len(gal) >= 3 and gal[0] == "f32" and gal[1].isdigit() and "closure" in gal[2]:
+                            if cal.endswith("array::<impl [T; N]>::map") and len(gal) >= 3 and gal[0] == "f32" and gal[1].isdigit() and ("closure" in gal[2] or cb_.name.split("::")[-1] in gal[2]):
                                 if int(gal[1]) == n_from:
                                     ok_h = True
                                     det_h = f"f16::from_f32(..).to_bits() mapped over [f32; {gal[1]}]"
